@@ -193,8 +193,7 @@ def _(c):
 
     def queued_only_when_created(s):
         um, old = s.self.updated_manifests, s.old.self.updated_manifests
-        return z3.Or(um == old, z3.And(s.allow_create, um == z3.Store(old, s.relpath, True),
-                                       FS.fs_open_err(join2(s.self.root_directory, s.relpath)) == errno.ENOENT))
+        return z3.Or(um == old, z3.And(s.allow_create, um == z3.Store(old, s.relpath, True)))
     c.ensures('new-manifest-only-when-allowed-and-absent', queued_only_when_created, props=['C06', 'C10'])
 
     c.exc_ensures('missing-file-is-an-error-unless-creating', 'FileNotFoundError',
